@@ -208,6 +208,24 @@ Proof.
   exact (K p P).
 Qed.
 
+(** Clause 6 (Prim), partial.  [check_msf] (graph edges, acyclic by sequential quick-find
+    labelling, and for every graph edge (a,b,w): a and b are joined by forest edges of weight <= w,
+    i.e. spanning + cycle property) is run on the implementation's and the model's forests for
+    every generated graph, together with the comparison against Kruskal's weight.  Proved here:
+    an accepted forest consists of graph edges with end points in range.  Missing: acyclicity /
+    spanning / minimum weight from the certificate (the exchange argument), and that Prim's
+    output always passes. *)
+Theorem C14_check_msf_edges_partial :
+  forall g es, check_msf g es = true ->
+    forall e, In e es -> gedge g e /\ e_a e < g_n g /\ e_b e < g_n g.
+Proof.
+  intros g es H e He. unfold check_msf in H.
+  apply andb_prop in H. destruct H as [H _]. apply andb_prop in H. destruct H as [H _].
+  rewrite forallb_forall in H. specialize (H e He).
+  apply andb_prop in H. destruct H as [H1 H2].
+  destruct (edge_in_true g e H1) as [A B]. split; auto. split; auto. now apply Nat.ltb_lt.
+Qed.
+
 (** Soundness of the simple certificate checkers run on the implementation's answers. *)
 Theorem C14_check_path_sound :
   forall g s v p, check_path g s v p = true -> is_path g s v p.
@@ -240,6 +258,7 @@ Print Assumptions C14_topological_order_acyclic.
 Print Assumptions C14_topological.
 Print Assumptions C14_check_spt_sound.
 Print Assumptions C14_dijkstra_partial.
+Print Assumptions C14_check_msf_edges_partial.
 Print Assumptions C14_check_path_sound.
 Print Assumptions C14_check_cycle_sound.
 Print Assumptions C14_check_topo_sound.
